@@ -8,6 +8,7 @@ import (
 	"fmt"
 	"io"
 	"log/slog"
+	"runtime"
 	"strings"
 	"sync"
 	"testing"
@@ -215,6 +216,13 @@ func expectedGo(uri, doc string) (string, bool) {
 }
 
 func simWorld(rc *kernel.RunCtx) {
+	// One release can make two goroutines runnable at once here: a handler that has just
+	// replied (AsyncHandler closes the next handler's gate *before* it writes its response)
+	// and the handler it unblocked. Which of them reaches the connection's write lock first is
+	// the Go scheduler's choice, not a seam. With a single P that choice is fixed (the running
+	// goroutine continues until it blocks), so runs stay a function of their tape; the other
+	// order is not explored (recorded under assumptions).
+	runtime.GOMAXPROCS(1)
 	t := rc.T
 	k := kernel.New(t, kernel.M2, rc.Param("max_steps", 6000))
 	kernel.Active = k
